@@ -225,6 +225,13 @@ def strip_ty(t):
     return t
 
 
+SIZE_OF = {
+    "u8": 1, "i8": 1, "u16": 2, "i16": 2, "u32": 4, "i32": 4, "u64": 8, "i64": 8, "usize": 8, "isize": 8, "u128": 16,
+    "core::core_arch::x86::__m128i": 16, "core::core_arch::x86::__m256i": 32, "core::core_arch::x86::__m512i": 64,
+    "*mut core::ffi::c_void": 8, "*const core::ffi::c_void": 8, "*mut u8": 8, "*const u8": 8,
+}
+
+
 class CallSite:
     __slots__ = ("fn", "bb", "callee", "declared", "args", "raw", "line", "exp", "dest", "target", "gargs", "krate", "local")
 
@@ -406,6 +413,10 @@ class Fn:
         else:
             callee = ("indirect", self.operand_expr(func, depth + 1))
         args = tuple(self.operand_expr(a, depth + 1) for a in t["args"])
+        if isinstance(callee, str) and callee in ("core::mem::size_of", "core::mem::align_of") and not args:
+            ga = func.get("gargs", [])
+            if len(ga) == 1 and ga[0] in SIZE_OF and callee.endswith("size_of"):
+                return ("c", SIZE_OF[ga[0]], "size_of::<%s>" % ga[0].split("::")[-1], "usize")
         return ("call", callee, args)
 
     def rvalue_expr(self, rv, depth=0):
